@@ -6,7 +6,7 @@
 //! several verifier RNG streams per batch.
 
 use frost_core::batch::{Item, Verifier};
-use frost_core::{self as frost, Signature, SigningKey, VerifyingKey};
+use frost_core::{self as frost, Field, Signature, SigningKey, VerifyingKey};
 use serde_json::json;
 
 use crate::dispatch;
@@ -24,8 +24,8 @@ pub fn prop() -> Prop {
         id: "C19",
         level: "fault_enumeration",
         runs: |t| match t {
-            Tier::Quick => 500,
-            Tier::Thorough => 8000,
+            Tier::Quick => 2000,
+            Tier::Thorough => 20000,
         },
         generate,
         exec,
@@ -327,6 +327,81 @@ fn exec_c<C: Suite>(scen: &Scenario) -> Exec {
                 Ok(false) => rep.probe("cancel_twin_rejected"),
             }
             rep.extra_shapes.push(format!("{}|pair|{size}|{a}|{b}", scen.suite));
+        }
+    }
+    // crafted verifier randomness: blinders with special bit patterns (1, 2^k, q-1, alternating bits ...) exercise
+    // the multiscalar multiplication on scalars that random sampling never produces
+    {
+        let craft = |s: frost::Scalar<C>| -> Option<Vec<u8>> {
+            let le = {
+                let mut b = F::<C>::little_endian_serialize(&s).as_ref().to_vec();
+                b.resize(if b.len() > 40 { 114 } else { 64 }, 0);
+                b
+            };
+            let be = sc_bytes::<C>(&s);
+            for cand in [le, be] {
+                let mut r = SimRng::replay(cand.clone(), stream(0, 0, "c19/never"));
+                let got = F::<C>::random(&mut r);
+                if got == s && r.total() == cand.len() {
+                    return Some(cand);
+                }
+            }
+            None
+        };
+        let two = sc_from_u64::<C>(2);
+        let mut pow = |k: u32| {
+            let mut x = one::<C>();
+            for _ in 0..k {
+                x = x * two;
+            }
+            x
+        };
+        let q1 = neg::<C>(one::<C>());
+        let mut alt = zero::<C>();
+        for i in 0..120 {
+            if i % 2 == 0 {
+                alt = alt + pow(i * 2);
+            }
+        }
+        let specials: Vec<frost::Scalar<C>> = vec![one::<C>(), two, sc_from_u64::<C>(3), pow(63), pow(64), pow(127), pow(128), pow(200), pow(250), q1, q1 - one::<C>(), alt, pow(128) - one::<C>(), pow(250) - one::<C>(), sc_from_u64::<C>(u64::MAX)];
+        let crafted: Vec<Vec<u8>> = specials.iter().filter_map(|s| craft(*s)).collect();
+        if crafted.len() >= 4 {
+            let run_batch = |b: &[It<C>], rot: usize| -> Option<bool> {
+                let mut bytes = Vec::new();
+                for k in 0..b.len() {
+                    bytes.extend_from_slice(&crafted[(k + rot) % crafted.len()]);
+                }
+                let mut v = Verifier::<C>::new();
+                for it in b {
+                    v.queue(Item::<C>::new(it.vk, it.sig, &it.msg).ok()?);
+                }
+                let mut rng = SimRng::replay(bytes.clone(), stream(scen.seed, scen.run, "c19/crafted/fallback"));
+                let r = v.verify(&mut rng).is_ok();
+                // the crafted stream must have been consumed exactly as planned, else the construction is off: skip
+                if rng.total() != bytes.len() { None } else { Some(r) }
+            };
+            for rot in 0..crafted.len().min(6) {
+                rep.evaluations += 1;
+                match run_batch(&items, rot) {
+                    Some(false) => return Exec::Violation(viol("C19.valid_batch_rejected", format!("all-valid batch of {size} rejected when the verifier's blinders are special scalars (rotation {rot} of 1, 2, 3, 2^63, 2^64, 2^127, 2^128, 2^200, 2^250, q-1, q-2, alternating bits, 2^128-1, 2^250-1, 2^64-1)")), rep),
+                    Some(true) => rep.probe("crafted_blinders_valid_accepted"),
+                    None => rep.probe("crafted_blinders_skipped"),
+                }
+                let pos = (rot * 7) % size;
+                if let Some(bad) = alter::<C>(&items[pos], "altered_response", &mut p, &other_vk) {
+                    if !single_ok(&bad) {
+                        let mut b = items.clone();
+                        b[pos] = bad;
+                        rep.evaluations += 1;
+                        if run_batch(&b, rot) == Some(true) {
+                            return Exec::Violation(viol("C19.invalid_item_accepted", format!("altered response at position {pos} of {size} accepted when the verifier's blinders are special (non-zero) scalars, rotation {rot}")), rep);
+                        }
+                        rep.probe("crafted_blinders_invalid_rejected");
+                    }
+                }
+            }
+        } else {
+            rep.probe("crafted_blinders_unavailable");
         }
     }
     rep.nontrivial = true;
